@@ -357,6 +357,7 @@ class ToThreadRun:
         self.sim = sim = SimRun(case["sched_seed"], LoopConfig.from_json(case["loop"]), loop_cls=BatonLoop)
         self.faults = sim.faults
         sched = baton.begin(random.Random(f"baton:{case['sched_seed']}"), sim.faults, "loop", preempt=case.get("preempt", 0))
+        sched.on_switch = lambda who, where, nxt: self.h.rec("preempted", who, where, "->", nxt)
         snap = {}
 
         def snapshot():
